@@ -1,4 +1,5 @@
 import Cpppo.Proofs.Route
+import Cpppo.Proofs.RouteJson
 
 /-!
 # C15 — Route-path filtering follows the configured device personality
@@ -12,8 +13,9 @@ assertion, `main()`'s personality configuration, `client.unconnected_send`'s wra
   (`refuse_port`, `refuse_link`, `refuse_link_kind`, `refuse_length`);
 * refusal: `refused_no_access` (error status, no payload, device unchanged, the executing function is
   not consulted), `status_zero_iff`, `session_ends_at_refusal` (nothing after a refused frame runs);
-* texts: `parse_route_spells` ('p/l' chains of any length, numeric and IPv4 links) and what `main()`
-  and the client make of them (`main_*`, `client_*`).
+* texts: `parse_route_spells` ('p/l' chains of any length, numeric and IPv4 links),
+  `parse_json_dicts_spells`, `parse_json_dict_spells`, `parse_json_strings_spells` (the JSON spellings,
+  through the model's own `json.loads`), and what `main()` and the client make of them (`main_*`, `client_*`).
 
 `σ`, `ρ`, `π` (device state, request, reply payload) and `exec` are arbitrary: the inner request's
 execution is an abstract partial function of state and request (`none` = the addressed object raised).
@@ -297,6 +299,33 @@ example : ∀ s ∈ [Seg.pl 1 (.num 0), .pl 2 (.addr [49, 48, 46, 48, 46, 48, 46
 
 example : parseRoutePath (renderSlash [.pl 1 (.num 0), .pl 2 (.addr [49, 48, 46, 48, 46, 48, 46, 50, 53, 53])])
     = some [.pl 1 (.num 0), .pl 2 (.addr [49, 48, 46, 48, 46, 48, 46, 50, 53, 53])] := by decide +kernel
+
+/-- **JSON list of `{"port":p,"link":l}` objects**, any length: parses to the segments it spells -/
+theorem parse_json_dicts_spells (segs : List Seg) (hne : segs ≠ []) (hwf : ∀ s ∈ segs, s.WF) :
+    parseRoutePath (renderJsonList (segs.map renderSegDict)) = some segs :=
+  parseRoutePath_dicts segs hne hwf
+
+/-- **a bare JSON object** `{"port":p,"link":l}` is en-listed -/
+theorem parse_json_dict_spells (s : Seg) (hs : s.WF) : parseRoutePath (renderSegDict s) = some [s] :=
+  parseRoutePath_dict1 s hs
+
+/-- **JSON list of "p/l" strings**, any length -/
+theorem parse_json_strings_spells (segs : List Seg) (hne : segs ≠ []) (hwf : ∀ s ∈ segs, s.WF) :
+    parseRoutePath (renderJsonList (segs.map renderSegStr)) = some segs :=
+  parseRoutePath_strs segs hne hwf
+
+/-- all spellings of the same segments denote the same route path -/
+theorem spellings_agree (segs : List Seg) (hne : segs ≠ []) (hwf : ∀ s ∈ segs, s.WF) :
+    parseRoutePath (renderSlash segs) = parseRoutePath (renderJsonList (segs.map renderSegDict))
+    ∧ parseRoutePath (renderSlash segs) = parseRoutePath (renderJsonList (segs.map renderSegStr)) := by
+  rw [parse_route_spells segs hne hwf, parse_json_dicts_spells segs hne hwf, parse_json_strings_spells segs hne hwf]
+  exact ⟨rfl, rfl⟩
+
+-- '[{"port":1,"link":"1.2.3.4"},{"port":2,"link":0}]' and '["1/1.2.3.4","2/0"]'
+example : parseRoutePath (renderJsonList ([Seg.pl 1 (.addr [49, 46, 50, 46, 51, 46, 52]), .pl 2 (.num 0)].map renderSegDict))
+    = some [.pl 1 (.addr [49, 46, 50, 46, 51, 46, 52]), .pl 2 (.num 0)] := by decide +kernel
+example : renderJsonList ([Seg.pl 1 (.addr [49, 46, 50, 46, 51, 46, 52]), .pl 2 (.num 0)].map renderSegStr)
+    = [91, 34, 49, 47, 49, 46, 50, 46, 51, 46, 52, 34, 44, 34, 50, 47, 48, 34, 93] := by decide +kernel
 
 /-! ### … and so does what is configured from them: `main()` -/
 
